@@ -43,9 +43,20 @@ func C17_deflate_negotiated() {
 	e2 := Extension{Parameters: conf}
 	u.Negotiate = e2.Negotiate
 	req2 := "GET /y HTTP/1.1\r\nHost: h\r\nUpgrade: websocket\r\nConnection: Upgrade\r\nSec-WebSocket-Version: 13\r\nSec-WebSocket-Key: dGhlIHNhbXBsZSBub25jZQ==\r\nSec-WebSocket-Extensions: x-webkit-deflate-frame; no_context_takeover;  max_window_bits=9; something_else\r\n\r\n"
-	if vChoose("second", 2) == 1 {
+	switch vChoose("second", 3) {
+	case 1:
 		_, err2 := u.Upgrade(&vHalf{in: []byte(req2)})
 		vAssert(err2 == nil, "deflate.second_upgrade_ok")
+	case 2:
+		// another connection of the same server negotiates OTHER window sizes (another
+		// configuration, another accepted offer) in between
+		conf3 := conf
+		conf3.ServerMaxWindowBits = 12
+		e3 := Extension{Parameters: conf3}
+		u.Negotiate = e3.Negotiate
+		req3 := "GET /z HTTP/1.1\r\nHost: h\r\nUpgrade: websocket\r\nConnection: Upgrade\r\nSec-WebSocket-Version: 13\r\nSec-WebSocket-Key: dGhlIHNhbXBsZSBub25jZQ==\r\nSec-WebSocket-Extensions: permessage-deflate; server_no_context_takeover; client_no_context_takeover; server_max_window_bits=15\r\n\r\n"
+		hs3, err3 := u.Upgrade(&vHalf{in: []byte(req3)})
+		vAssert(vAnd(err3 == nil, len(hs3.Extensions) == 1), "deflate.other_upgrade_ok")
 	}
 	vPoisonPools()
 	if len(hs.Extensions) == 0 {
